@@ -135,7 +135,9 @@ func execC18Scalar(c *vf.Ctx, d *vf.Driver, cs c18Case) {
 // scalar byte strings of 0..96 bytes: multiples of n ± 1, 2^k ± 1, all-ones, random, zero padded
 func genScalarBytes(r *vf.Rand) []byte {
 	n := r.Intn(97)
-	switch r.Intn(8) {
+	switch r.Intn(9) {
+	case 8:
+		return k1SweepPick(r)
 	case 0: // m·n + δ, δ ∈ {-1,0,1}
 		bits := 8 * n
 		if bits < 257 {
